@@ -135,43 +135,51 @@ Definition gt_rows (pl : Z) (ns : nat) (r : record) : list Z * list Z :=   (* (g
        map (fun c : list (option Z) * bool => if 2 <=? zlen (fst c) then (if snd c then 1 else 0) else DONTCARE) calls)
   end.
 
-Definition spec_encode (h : header) (recs0 : list record) : res (list array) :=
-  let recs := sort_records recs0 in
+(* the fixed-field arrays *)
+Definition max_alleles (recs : list record) : Z := maxl (map (fun r => zlen (r_alts r)) recs) 0 + 1.
+Definition allele_row (ma : Z) (r : record) : list Z := r_ref r :: r_alts r ++ zrepeat STR_FILL (ma - 1 - zlen (r_alts r)).
+Definition filter_row (nf : Z) (r : record) : list Z :=
+  map (fun f => match r_filters r with
+                | Some fs => if existsb (Z.eqb f) fs then 1 else 0
+                | None => 0 end)
+      (map Z.of_nat (seq 0 (Z.to_nat nf))).
+Definition fixed_arrays (h : header) (recs : list record) (cdt pdt ldt : Z) : list array :=
   let m := zlen recs in
-  let ns := h_nsamples h in
-  bind (min_int_dtype 0 (h_ncontigs h)) (fun cdt =>
-  bind (int_values_dtype (map r_pos recs)) (fun pdt =>
-  bind (int_values_dtype (map r_reflen recs)) (fun ldt =>
-  let ma := maxl (map (fun r => zlen (r_alts r)) recs) 0 + 1 in
-  let fixed := [
-    {| a_name := AFixed 0; a_dtype := cdt; a_shape := [m]; a_vals := map r_contig recs |};
+  let ma := max_alleles recs in
+  [ {| a_name := AFixed 0; a_dtype := cdt; a_shape := [m]; a_vals := map r_contig recs |};
     {| a_name := AFixed 1; a_dtype := pdt; a_shape := [m]; a_vals := map r_pos recs |};
     {| a_name := AFixed 2; a_dtype := ldt; a_shape := [m]; a_vals := map r_reflen recs |};
     {| a_name := AFixed 3; a_dtype := DT_O; a_shape := [m]; a_vals := map (fun r => match r_id r with Some s => s | None => STR_MISSING end) recs |};
     {| a_name := AFixed 4; a_dtype := DT_BOOL; a_shape := [m]; a_vals := map (fun r => match r_id r with Some _ => 0 | None => 1 end) recs |};
-    {| a_name := AFixed 5; a_dtype := DT_O; a_shape := [m; ma];
-       a_vals := flat_map (fun r => r_ref r :: r_alts r ++ zrepeat STR_FILL (ma - 1 - zlen (r_alts r))) recs |};
+    {| a_name := AFixed 5; a_dtype := DT_O; a_shape := [m; ma]; a_vals := flat_map (allele_row ma) recs |};
     {| a_name := AFixed 6; a_dtype := DT_F4; a_shape := [m]; a_vals := map (fun r => match r_qual r with Some q => q | None => F32_MISSING end) recs |};
-    {| a_name := AFixed 7; a_dtype := DT_BOOL; a_shape := [m; h_nfilters h];
-       a_vals := flat_map (fun r => map (fun f => match r_filters r with
-                                                  | Some fs => if existsb (Z.eqb f) fs then 1 else 0
-                                                  | None => 0 end)
-                                        (map Z.of_nat (seq 0 (Z.to_nat (h_nfilters h))))) recs |} ] in
+    {| a_name := AFixed 7; a_dtype := DT_BOOL; a_shape := [m; h_nfilters h]; a_vals := flat_map (filter_row (h_nfilters h)) recs |} ].
+
+Definition gt_dtype_values (pl : Z) (recs : list record) : list Z :=
+  flat_map (fun r => match r_gt r with
+                     | Some calls => flat_map (fun c : list (option Z) * bool => map (enc_cell 0) (fst c) ++ (if zlen (fst c) <? pl then [-2] else [])) calls
+                     | None => [-1] end) recs.
+Definition gt_arrays (ns : nat) (recs : list record) : res (list array) :=
+  let m := zlen recs in
+  let pl := gt_ploidy recs in
+  let rows := map (gt_rows pl ns) recs in
+  let g := flat_map fst rows in
+  bind (int_values_dtype (gt_dtype_values pl recs)) (fun gdt =>
+  Ok [ {| a_name := AFixed 8; a_dtype := gdt; a_shape := [m; Z.of_nat ns; pl]; a_vals := g |};
+       {| a_name := AFixed 9; a_dtype := DT_BOOL; a_shape := [m; Z.of_nat ns]; a_vals := flat_map snd rows |};
+       {| a_name := AFixed 10; a_dtype := DT_BOOL; a_shape := [m; Z.of_nat ns; pl]; a_vals := map (fun a => if a <? 0 then 1 else 0) g |} ]).
+
+Definition spec_encode (h : header) (recs0 : list record) : res (list array) :=
+  let recs := sort_records recs0 in
+  let ns := h_nsamples h in
+  bind (min_int_dtype 0 (h_ncontigs h)) (fun cdt =>
+  bind (int_values_dtype (map r_pos recs)) (fun pdt =>
+  bind (int_values_dtype (map r_reflen recs)) (fun ldt =>
   bind (mapM (fun it => info_array (Z.of_nat (fst it)) (snd (snd it)) recs) (combine (seq 0 (length (h_infos h))) (h_infos h))) (fun infos =>
   bind (if Nat.eqb ns 0 then Ok [] else
         mapM (fun it => fmt_array (Z.of_nat (fst it)) (snd (snd it)) ns recs) (combine (seq 0 (length (h_fmts h))) (h_fmts h))) (fun fmts =>
-  bind (if h_has_gt h && negb (Nat.eqb ns 0) then
-          let pl := gt_ploidy recs in
-          let rows := map (gt_rows pl ns) recs in
-          let g := flat_map fst rows in
-          bind (int_values_dtype (flat_map (fun r => match r_gt r with
-                                                    | Some calls => flat_map (fun c : list (option Z) * bool => map (enc_cell 0) (fst c) ++ (if zlen (fst c) <? pl then [-2] else [])) calls
-                                                    | None => [-1] end) recs)) (fun gdt =>
-          Ok [ {| a_name := AFixed 8; a_dtype := gdt; a_shape := [m; Z.of_nat ns; pl]; a_vals := g |};
-               {| a_name := AFixed 9; a_dtype := DT_BOOL; a_shape := [m; Z.of_nat ns]; a_vals := flat_map snd rows |};
-               {| a_name := AFixed 10; a_dtype := DT_BOOL; a_shape := [m; Z.of_nat ns; pl]; a_vals := map (fun a => if a <? 0 then 1 else 0) g |} ])
-        else Ok []) (fun gts =>
-  Ok (fixed ++ infos ++ fmts ++ gts))))))).
+  bind (if h_has_gt h && negb (Nat.eqb ns 0) then gt_arrays ns recs else Ok []) (fun gts =>
+  Ok (fixed_arrays h recs cdt pdt ldt ++ infos ++ fmts ++ gts))))))).
 
 (* comparison of a stored array with the specification: equal except on DONTCARE cells *)
 Fixpoint vals_match (got want : list Z) : bool :=
